@@ -139,3 +139,72 @@ Section HasExport.
     destruct (existsb _ l); reflexivity.
   Qed.
 End HasExport.
+
+(* ---------- RenamingSubject.ToSubject: every token that is a reference - a dollar sign followed by an integer - reads
+   as the wildcard *, every other token stays; strconv.Atoi is an unknown function of its text, here the model's atoi.
+   (strings.Builder is the text written into it so far.) ---------- *)
+From JWT Require Import Model.Validate.
+Definition o_atoi_err (r : string) : option string := match atoi r with Some _ => None | None => Some "invalid syntax" end.
+Definition conv_tok (tk : string) : string := match ref_token tk with Some _ => "*" | None => tk end.
+
+Lemma substring_all (s : string) : substring 0 (String.length s) s = s.
+Proof. induction s as [|x s IH]; [reflexivity|]. cbn [String.length substring]. now rewrite IH. Qed.
+Lemma is_ref_spec (tk : string) :
+  (if ((go_slen tk >? 1)%Z && (go_sbyte tk 0 =? 36)%Z)
+   then (if go_err_isnil (o_atoi_err (go_substr tk 1 (go_slen tk))) then true else false) else false)
+  = match ref_token tk with Some _ => true | None => false end.
+Proof.
+  unfold ref_token, go_slen. destruct tk as [|c r]; [reflexivity|].
+  destruct r as [|c2 r2].
+  - cbn [String.length Nat.ltb Nat.leb]. replace (Z.of_nat 1 >? 1)%Z with false by reflexivity. reflexivity.
+  - replace (Nat.ltb (String.length (String c (String c2 r2))) 2) with false by reflexivity.
+    replace (Z.of_nat (String.length (String c (String c2 r2))) >? 1)%Z with true
+      by (symmetry; apply Z.gtb_lt; cbn [String.length]; lia).
+    cbn [andb].
+    assert (Hsub : go_substr (String c (String c2 r2)) 1 (Z.of_nat (String.length (String c (String c2 r2)))) = String c2 r2).
+    { unfold go_substr. rewrite Nat2Z.id. change (Z.to_nat 1) with 1%nat. cbn [String.length Nat.sub substring].
+      f_equal. apply substring_all. }
+    rewrite Hsub. unfold go_sbyte. cbn [Z.to_nat go_sbyte_nat].
+    destruct (Ascii.eqb_spec c "$"%char) as [->|Hne].
+    + replace (Z.of_nat (nat_of_ascii "$") =? 36)%Z with true by reflexivity. unfold o_atoi_err.
+      destruct (atoi (String c2 r2)); reflexivity.
+    + assert (Hz : (Z.of_nat (nat_of_ascii c) =? 36)%Z = false).
+      { apply Z.eqb_neq. intros H. apply Hne. apply (f_equal Z.to_nat) in H. rewrite Nat2Z.id in H.
+        change (Z.to_nat 36) with (nat_of_ascii "$"%char) in H.
+        rewrite <- (ascii_nat_embedding c), <- (ascii_nat_embedding "$"%char). now f_equal. }
+      rewrite Hz. destruct c as [[] [] [] [] [] [] [] []]; try reflexivity. exfalso; apply Hne; reflexivity.
+Qed.
+
+Definition tsbody (n : Z) (i : Z) (tk : string) (bldr : string) : ctl string string :=
+  let convert := if ((go_slen tk >? 1)%Z && (go_sbyte tk 0 =? 36)%Z)
+                 then (if go_err_isnil (o_atoi_err (go_substr tk 1 (go_slen tk))) then true else false) else false in
+  let bldr := if convert then (bldr ++ "*")%string else (bldr ++ tk)%string in
+  Cont (if negb (i =? n - 1)%Z then (bldr ++ ".")%string else bldr).
+
+Lemma str_app_assoc' (a b c : string) : ((a ++ b) ++ c)%string = (a ++ b ++ c)%string.
+Proof. induction a as [|x a IH]; [reflexivity|]. cbn. now rewrite IH. Qed.
+Lemma str_app_nil_r' (s : string) : (s ++ "")%string = s.
+Proof. induction s as [|c s IH]; [reflexivity|]. cbn. now rewrite IH. Qed.
+
+Lemma tsloop (n : Z) : forall (l : list string) (i : Z) (bldr : string), (i + Z.of_nat (List.length l) = n)%Z ->
+  go_range (R:=string) (tsbody n) i l bldr = inl (bldr ++ join dot (map conv_tok l))%string.
+Proof.
+  induction l as [|tk l IH]; intros i bldr Hn; [cbn; now rewrite str_app_nil_r'|].
+  cbn [go_range map]. unfold tsbody at 1. cbv zeta. rewrite is_ref_spec. unfold conv_tok at 1.
+  destruct l as [|tk2 l2].
+  - cbn [List.length] in Hn. replace (i =? n - 1)%Z with true by (symmetry; apply Z.eqb_eq; lia). cbn [negb go_range join map].
+    destruct (ref_token tk); reflexivity.
+  - replace (i =? n - 1)%Z with false by (symmetry; apply Z.eqb_neq; cbn [List.length] in Hn; lia). cbn [negb].
+    rewrite IH by (cbn [List.length] in *; lia).
+    change (join dot (match ref_token tk with Some _ => "*" | None => tk end :: map conv_tok (tk2 :: l2)))
+      with ((match ref_token tk with Some _ => "*" | None => tk end) ++ String dot (join dot (map conv_tok (tk2 :: l2))))%string.
+    destruct (ref_token tk); rewrite !str_app_assoc'; reflexivity.
+Qed.
+
+Lemma src_to_subject (s : string) : V2.RenamingSubject_ToSubject o_atoi_err s = to_subject s.
+Proof.
+  unfold V2.RenamingSubject_ToSubject, to_subject. cbv zeta. destruct (negb (contains "$" s)); [reflexivity|].
+  rewrite go_split_dot.
+  change (go_range _ 0%Z (split dot s) "") with (go_range (R:=string) (tsbody (go_llen (split dot s))) 0%Z (split dot s) "").
+  rewrite tsloop by (unfold go_llen; lia). reflexivity.
+Qed.
